@@ -7,16 +7,7 @@ from . import server_family as SF, client_family as CF
 TMPL = CF.TMPL
 KEEP = {'Reset', 'SB', 'SE', 'RB', 'RE', 'CB', 'CE', 'Send', 'Final', 'Crash', 'Deadlock', 'Leak'}
 
-def add_probes(sc, rng, n=2):
-    sc = dict(sc); steps = list(sc['steps'])
-    firsts = [i for i, s in enumerate(steps) if s['a'] in ('send', 'op', 'peer', 'callback', 'notify')]
-    if not firsts:
-        return sc
-    for _ in range(n):
-        pos = rng.randrange(firsts[0] + 1, len(steps) + 1)
-        steps.insert(pos, dict(a='probe', kind='close' if rng.random() < 0.15 else 'send'))
-    sc['steps'] = steps; sc['name'] += '-p'
-    return sc
+add_probes = SF.add_probes
 
 def run_check(prop, tier, seed, replay=None):
     t0 = time.time()
